@@ -78,12 +78,12 @@ class Exec:
         log = self.log
         if p["kind"] == "so":
             def ff(prog, pi=pi):
-                log.append((pi, prog.v))
+                log.append((pi, prog.v, prog))
                 return f_of(prog.v)
             return SingleObjectiveProblem(ff, minimize=p["minimize"][0])
 
         def ffm(prog, pi=pi, k=p["k"]):
-            log.append((pi, prog.v))
+            log.append((pi, prog.v, prog))
             return [f_of(prog.v, j) for j in range(k)]
         if p["kind"] == "mo_list":
             return MultiObjectiveProblem(list(p["minimize"][: p["k"]]), ffm)
@@ -130,6 +130,7 @@ def run(ctx):
                     ctx.faults["represent"] += 1
                 n0 = len(ex.log)
                 c0 = ex.evaluator.number_of_evaluations()
+                fresh = len({id(m) for m in members if not m.has_fitness(problem)})
                 try:
                     if call["via"] == "evaluator":
                         ex.evaluator.evaluate(problem, members)
@@ -155,6 +156,11 @@ def run(ctx):
                     return
                 invoked = ex.log[n0:]
                 counted = ex.evaluator.number_of_evaluations() - c0
+                if call["via"] != "step" and len(invoked) != fresh:
+                    ctx.violate(f"C13/invocations/{mode}/{'more' if len(invoked) > fresh else 'fewer'}-than-unevaluated-individuals",
+                                f"{mode} via {call['via']}: {len(members)} individuals presented, {fresh} distinct ones without a fitness, "
+                                f"but the fitness function was invoked {len(invoked)} times")
+                    return
                 if counted != len(invoked):
                     ctx.violate(f"C13/counter/{mode}/{'multi' if ex.hist['problems'][pi]['kind'] != 'so' else 'single'}-objective/{'under' if counted < len(invoked) else 'over'}",
                                 f"{mode}: the evaluation counter advanced by {counted} while the fitness function of problem {pi} ({hist['problems'][pi]['kind']}) was invoked {len(invoked)} times (via {call['via']})")
@@ -163,15 +169,14 @@ def run(ctx):
             from collections import Counter
 
             per = Counter()
-            # invocations are attributed to (problem, program value); individuals with equal genotypes are distinct individuals,
-            # so the bound is the number of distinct individuals carrying that genotype that hold a fitness for the problem
-            for (pi, v) in ex.log:
-                per[(pi, v)] += 1
-            for (pi, v), cnt in per.items():
-                holders = sum(1 for ind in ex.inds if ind.genotype == v and ind.has_fitness(ex.problems[pi]))
-                if cnt > max(holders, 1):
-                    ctx.violate(f"C13/evaluated-more-than-once/{mode}",
-                                f"{mode}: fitness of problem {pi} was invoked {cnt} times for program {v} although only {holders} individual(s) carry it")
+            # sequential: an individual caches its phenotype object, so one program object must never be evaluated twice for a
+            # problem (in the simulated pool every task sees a fresh copy, so identity says nothing there)
+            if mode == "sequential":
+                for (pi, v, prog) in ex.log:
+                    per[(pi, id(prog))] += 1
+                worst = [k for k, c in per.items() if c > 1]
+                if worst:
+                    ctx.violate(f"C13/evaluated-more-than-once/{mode}", f"{mode}: the fitness function of problem {worst[0][0]} was invoked {per[worst[0]]} times on the same program object")
                     return
             for ind in ex.inds:
                 for pi, problem in enumerate(ex.problems):
